@@ -1250,6 +1250,7 @@ func c14Variants() []Variant {
 		{Name: "forget-last-inactive", File: "core/state/validator.go", Old: "	v.LastInactive = r.LastInactive\n", New: "", Rule: "C14.E2", Construct: "Validator"},
 		{Name: "map-order-encoding", File: "staking/evidence.go", Old: "	sort.Slice(hashes, func(i, j int) bool { return bytes.Compare(hashes[i][:], hashes[j][:]) < 0 })\n", New: "	_ = sort.Slice\n	_ = bytes.Compare\n", Rule: "C14.E3", Construct: "EvidenceDoubleSign"},
 		{Name: "alloc-before-kind", File: "rlp/decode.go", Old: "func (s *Stream) Bytes() ([]byte, error) {\n	kind, size, err := s.Kind()\n	if err != nil {\n		return nil, err\n	}", New: "func (s *Stream) Bytes() ([]byte, error) {\n	kind, size, err := s.Kind()\n	pre := make([]byte, size)\n	_ = pre\n	if err != nil {\n		return nil, err\n	}", Rule: "C14.E5", Construct: "Bytes"},
+		{Name: "stat-maps-not-made", File: "core/state/validator.go", Old: "	if m.Kinds == nil {\n		m.Kinds = make(map[params.ValidatorKind]*ValKindStat)\n	}\n", New: "", Rule: "C14.E14", Construct: "ValidatorsStat"},
 	}
 }
 
